@@ -167,7 +167,10 @@ pub fn run(sc: &Scenario, stats: &mut Stats) {
             let cont = continues_true(&b);
             stream_bytes.extend_from_slice(&b);
             stream_bytes.push(0);
-            json!({"cls": o.cls, "canon": o.canon, "end": end, "cont": cont})
+            let mut v = crate::targets::expected_fields(&o, &b);
+            v["end"] = json!(end);
+            v["cont"] = json!(cont);
+            v
         })
         .collect();
     ev(json!({"ev":"reset","sid":sc.sid,"calls":sc.calls,"docs":docs,"frames":frames,"hold":sc.hold,
